@@ -204,6 +204,7 @@ def table(t, job, part):
                     n0 = t.count()
         x.call('C_DestroyObject', s=t.s, o=o)
         gates(t, job, part, on_token, V)
+        raw_bools(t, job, part, on_token, V)
     supplied(t, job, part, V)
     if g in ('cert', 'public', 'secret'): trusted(t, job, part, V)
 
@@ -269,6 +270,52 @@ def gates(t, job, part, on_token, V):
         if r['rv'] == 0: part.observe('CKA_DESTROYABLE false -> true accepted by C_SetAttributeValue (v2.40 gives the attribute no footnote; not judged)', {'kind': kind})
     pc = t.mk(kind, token=on_token)
     if pc is None or x.call('C_DestroyObject', s=t.s, o=pc)['rv'] != 0: part.observe('positive control refused: C_DestroyObject', {'kind': kind})
+
+BYTES = (0x00, 0x01, 0x02, 0x80, 0xFF)          # CK_BBOOL as raw bytes: canonical false/true and three non-canonical "true"s
+def bclass(b): return 'canonical' if b in (0, 1) else 'non-canonical'
+def raw_bools(t, job, part, on_token, V):
+    """every attribute with a forbidden direction x raw CK_BBOOL byte x {set, copy}: judged by EFFECT only (the attribute still reads in its protected state and the gate it
+    controls still holds); whether a non-canonical byte is rejected or normalised is the token's choice"""
+    ck = t.ck; x = t.x; kind = job['kind']; g = group(kind); where = 'token' if on_token else 'session'
+    # (attribute, how to make the object, protected value, operations, groups)
+    cases = [('CKA_COPYABLE', dict(extra={'CKA_COPYABLE': False}), False, ('set',), None),
+             ('CKA_MODIFIABLE', dict(extra={'CKA_MODIFIABLE': False}), False, ('set',), None),
+             ('CKA_PRIVATE', dict(private=True), True, ('set', 'copy'), None),
+             ('CKA_TRUSTED', dict(private=False), False, ('set', 'copy'), ('cert', 'public', 'secret')),
+             ('CKA_SENSITIVE', dict(extra={'CKA_SENSITIVE': True}), True, ('set', 'copy'), ('private', 'secret')),
+             ('CKA_EXTRACTABLE', dict(extra={'CKA_EXTRACTABLE': False}), False, ('set', 'copy'), ('private', 'secret')),
+             ('CKA_WRAP_WITH_TRUSTED', dict(extra={'CKA_WRAP_WITH_TRUSTED': True}), True, ('set', 'copy'), ('private', 'secret'))]
+    for attr, how, prot, ops, groups in cases:
+        if groups and g not in groups: continue
+        o = t.mk(kind, token=on_token, **how)
+        if o is None: part.observe('cannot create the object for a raw-byte cell', {'kind': kind, 'attr': attr}); continue
+        if t.snap(o).get(attr) is not prot: x.call('C_DestroyObject', s=t.s, o=o); continue
+        for b in BYTES:
+            for op in ops:
+                fn = 'C_SetAttributeValue' if op == 'set' else 'C_CopyObject'
+                for tm, shape in (([(attr, {'bool': b})], 'alone'), ([('CKA_LABEL', b'rb'), (attr, {'bool': b})], 'after-label')):
+                    r = x.call(fn, s=t.s, o=o, tmpl=x.T(tm)); tgt = o if op == 'set' else (r['h'] if r['rv'] == 0 else None)
+                    part.case((kind, where, attr, op, 'raw-byte', hex(b), shape), nontrivial=True); part.count('cells_raw_bool')
+                    if tgt is None: continue
+                    a = t.snap(tgt); inp = f'{g}/{where},{attr}:=byte-{bclass(b)}'; wit = {'attr': attr, 'byte': hex(b), 'template': [n for n, _ in tm], 'rv': r['rvname'], 'reads': repr(a.get(attr))}
+                    if op == 'copy' and 'CKA_LABEL' in a and diff({k: v for k, v in t.snap(o).items() if k in ('CKA_KEY_TYPE', 'CKA_CERTIFICATE_TYPE', 'CKA_VALUE_LEN', 'CKA_MODULUS', 'CKA_PRIME', 'CKA_EC_PARAMS', 'CKA_SUBJECT')},
+                                                                  {k: v for k, v in a.items() if k in ('CKA_KEY_TYPE', 'CKA_CERTIFICATE_TYPE', 'CKA_VALUE_LEN', 'CKA_MODULUS', 'CKA_PRIME', 'CKA_EC_PARAMS', 'CKA_SUBJECT')}):
+                        x.call('C_DestroyObject', s=t.s, o=tgt); part.count('copy_cells_not_judged'); continue       # empty-shell copy of the db back-end (known finding): nothing to judge
+                    lost = a.get(attr) is not prot
+                    if lost: V(f'{fn}|{inp}|protection-removed', f'after {fn} with {attr} = byte {hex(b)} the attribute reads {a.get(attr)!r} (it was {prot!r}, the forbidden direction)', wit)
+                    # the gate the attribute controls must still hold
+                    if attr == 'CKA_COPYABLE':
+                        c = x.call('C_CopyObject', s=t.s, o=tgt, tmpl=[])
+                        if c['rv'] == 0: lost = True; V(f'{fn}|{inp},then-C_CopyObject|copied', 'a non-copyable object can be copied after the attempt', wit); x.call('C_DestroyObject', s=t.s, o=c['h'])
+                    if attr == 'CKA_MODIFIABLE':
+                        c = x.call('C_SetAttributeValue', s=t.s, o=tgt, tmpl=x.T([('CKA_LABEL', b'modified')]))
+                        if c['rv'] == 0: lost = True; V(f'{fn}|{inp},then-C_SetAttributeValue|modified', 'a non-modifiable object can be modified after the attempt', wit)
+                    if op == 'copy': x.call('C_DestroyObject', s=t.s, o=tgt)
+                    elif lost:
+                        x.call('C_DestroyObject', s=t.s, o=o); o = t.mk(kind, token=on_token, **how)
+                        if o is None: break
+            if o is None: break
+        if o is not None and x.call('C_DestroyObject', s=t.s, o=o)['rv'] != 0: pass
 
 def hist_values(ck): return {'CKA_LOCAL': (True, False), 'CKA_ALWAYS_SENSITIVE': (True, False), 'CKA_NEVER_EXTRACTABLE': (True, False), 'CKA_KEY_GEN_MECHANISM': (ck.CKM_AES_KEY_GEN, UNAVAIL)}
 def place(tmpl, pair, pos):
@@ -398,115 +445,164 @@ def trusted(t, job, part, V):
 
 # ---------------------------------------------------------------- engine 4: histories
 class KeyM:
-    def __init__(s, h, origin, local, kgm, AS, NE, cls='secret', ktype='GEN', spec=True, note=''):
-        s.h = h; s.origin = origin; s.local = local; s.kgm = kgm; s.AS = AS; s.NE = NE; s.cls = cls; s.ktype = ktype; s.spec = spec; s.note = note; s.depth = 0; s.shape = (origin,); s.okey = origin
+    def __init__(s, h, origin, local, kgm, AS, NE, cls='secret', ktype='GEN', weak=(), note=''):
+        s.h = h; s.origin = origin; s.local = local; s.kgm = kgm; s.AS = AS; s.NE = NE; s.cls = cls; s.ktype = ktype; s.weak = set(weak); s.note = note; s.shape = (origin,); s.okey = origin
+
+ENCDATA = {'CKM_AES_ECB_ENCRYPT_DATA': 'CKK_AES', 'CKM_AES_CBC_ENCRYPT_DATA': 'CKK_AES', 'CKM_DES3_ECB_ENCRYPT_DATA': 'CKK_DES3', 'CKM_DES3_CBC_ENCRYPT_DATA': 'CKK_DES3'}
+class Hist:
+    """one history: a pool of keys with their provenance model; every step re-reads and compares the four history attributes"""
+    def __init__(s, t, part, seed): s.t = t; s.x = t.x; s.ck = t.ck; s.part = part; s.seed = seed; s.pool = []; s.steps = []
+    def rd(s, h): return s.t.snap(h)
+    def wit(s, **kw): return dict(kw, seed=s.seed, steps=s.steps[-12:])
+    def check(s, k, step):
+        a = s.rd(k.h); part = s.part
+        if 'CKA_CLASS' not in a: return
+        sens, extr = a.get('CKA_SENSITIVE'), a.get('CKA_EXTRACTABLE'); part.count('history_checks')
+        def bad(attr, exp, strong=True):
+            key = f'history|{k.okey},{attr}|reads-{a.get(attr)}-expected-{exp}'
+            if strong and attr not in k.weak: part.violation(key, f'{attr} of a key made by {" -> ".join(k.shape)} reads {a.get(attr)!r}, its history says {exp!r}', s.wit(key_origin=k.origin, note=k.note, attrs={n: repr(a.get(n)) for n in HIST + ('CKA_SENSITIVE', 'CKA_EXTRACTABLE')}))
+            else: part.observe('history attribute differs from the generic rule where PKCS#11 v2.40 states none (not judged)', {'key': key})
+        if a.get('CKA_LOCAL') is not k.local: bad('CKA_LOCAL', k.local)
+        if k.kgm is not None and a.get('CKA_KEY_GEN_MECHANISM') != k.kgm:
+            if k.origin.startswith(('generate', 'create', 'unwrap')) or k.kgm != UNAVAIL: bad('CKA_KEY_GEN_MECHANISM', k.kgm)
+            else: part.observe('CKA_KEY_GEN_MECHANISM of a derived key is not CK_UNAVAILABLE_INFORMATION (v2.40 does not say: not judged)', {'shape': k.shape})
+        if k.cls != 'public':
+            # universal truths first: "always sensitive" while readable / "never extractable" while extractable is a lie whatever the origin
+            if a.get('CKA_ALWAYS_SENSITIVE') is True and sens is False: part.violation(f'history|{k.okey},CKA_ALWAYS_SENSITIVE|true-on-non-sensitive-key', 'CKA_ALWAYS_SENSITIVE true on a key whose CKA_SENSITIVE is false', s.wit())
+            if a.get('CKA_NEVER_EXTRACTABLE') is True and extr is True: part.violation(f'history|{k.okey},CKA_NEVER_EXTRACTABLE|true-on-extractable-key', 'CKA_NEVER_EXTRACTABLE true on a key whose CKA_EXTRACTABLE is true', s.wit())
+            if k.AS is not None and a.get('CKA_ALWAYS_SENSITIVE') is not k.AS: bad('CKA_ALWAYS_SENSITIVE', k.AS)
+            if k.NE is not None and a.get('CKA_NEVER_EXTRACTABLE') is not k.NE: bad('CKA_NEVER_EXTRACTABLE', k.NE)
+        part.case(('history',) + k.shape[:6] + (step,), nontrivial=True)
+    def add(s, k, step): s.pool.append(k); s.check(k, step); return k
+    # ---- origins
+    def generate(s, mech, s_, e_, private=True, shuffle=None):
+        x = s.x; ck = s.ck
+        tm = [('CKA_TOKEN', False), ('CKA_PRIVATE', private), ('CKA_SENSITIVE', s_), ('CKA_EXTRACTABLE', e_), ('CKA_DERIVE', True)] + ([('CKA_VALUE_LEN', 16)] if mech in ('CKM_AES_KEY_GEN', 'CKM_GENERIC_SECRET_KEY_GEN') else [])
+        if shuffle: shuffle(tm)
+        r = x.call('C_GenerateKey', s=s.t.s, mech=x.M(mech), tmpl=x.T(tm)); s.steps.append(('generate', mech, s_, e_, r['rvname']))
+        if r['rv'] != 0: s.part.observe('positive control refused: C_GenerateKey', {'mech': mech, 'rv': r['rvname']}); return None
+        return s.add(KeyM(r['h'], 'generate', True, ck[mech], s_, not e_, 'secret', mech), 'origin')
+    def genpair(s, mech, s_, e_):
+        x = s.x; ck = s.ck; fn, kw = MT.genkey_request(x, ck, mech); kw['priv'] = x.T([('CKA_TOKEN', False), ('CKA_PRIVATE', True), ('CKA_SENSITIVE', s_), ('CKA_EXTRACTABLE', e_), ('CKA_DERIVE', True)])
+        r = x.call(fn, s=s.t.s, **kw); s.steps.append(('genpair', mech, s_, e_, r['rvname']))
+        if r['rv'] != 0: s.part.observe('positive control refused: C_GenerateKeyPair', {'mech': mech, 'rv': r['rvname']}); return None
+        s.add(KeyM(r['hpub'], 'generate-pub', True, ck[mech], None, None, 'public', mech), 'origin')
+        return s.add(KeyM(r['hpriv'], 'generate', True, ck[mech], s_, not e_, 'private', mech), 'origin')
+    def create(s, kind, s_, e_):
+        pub = kind.endswith('pub'); h = s.t.mk(kind, private=not pub, extra=(None if pub else {'CKA_SENSITIVE': s_, 'CKA_EXTRACTABLE': e_})); s.steps.append(('create', kind, s_, e_))
+        if h is None: return None
+        return s.add(KeyM(h, 'create', False, UNAVAIL, None if pub else False, None if pub else False, K.kclass(kind), kind), 'origin')
+    def unwrap(s, kind, s_, e_):
+        x = s.x; ck = s.ck; t = s.t; wk = t.mk('AES32'); src = t.mk(kind, private=True)
+        w = x.call('C_WrapKey', s=t.s, mech=x.M('CKM_AES_KEY_WRAP_PAD'), wkey=wk, key=src, buf=4096); s.steps.append(('unwrap', kind, s_, e_))
+        if w['rv'] != 0: return None
+        ut = [('CKA_CLASS', ck.CKO_SECRET_KEY if K.kclass(kind) == 'secret' else ck.CKO_PRIVATE_KEY), ('CKA_KEY_TYPE', ck[K.ktype(kind)]), ('CKA_TOKEN', False), ('CKA_PRIVATE', True), ('CKA_SENSITIVE', s_), ('CKA_EXTRACTABLE', e_), ('CKA_DERIVE', True)]
+        r = x.call('C_UnwrapKey', s=t.s, mech=x.M('CKM_AES_KEY_WRAP_PAD'), ukey=wk, wrapped=w['out']['data'], tmpl=x.T(ut))
+        for h in (wk, src): x.call('C_DestroyObject', s=t.s, o=h)
+        if r['rv'] != 0: s.part.observe('positive control refused: C_UnwrapKey', {'kind': kind, 'rv': r['rvname']}); return None
+        return s.add(KeyM(r['h'], 'unwrap', False, UNAVAIL, False, False, K.kclass(kind), kind), 'origin')
+    # ---- steps
+    def set(s, k, attr, v):
+        r = s.x.call('C_SetAttributeValue', s=s.t.s, o=k.h, tmpl=s.x.T([(attr, v)])); s.steps.append(('set', attr, v, k.h, r['rvname']))
+        if r['rv'] == 0: k.shape += (f'set:{attr.replace("CKA_", "")}={int(v)}',); s.part.count('hist_set_' + attr.replace('CKA_', ''))
+        return r['rv'] == 0
+    def copy(s, k, tm):
+        r = s.x.call('C_CopyObject', s=s.t.s, o=k.h, tmpl=s.x.T(tm)); s.steps.append(('copy', k.h, [n for n, _ in tm], r['rvname']))
+        if r['rv'] != 0: return None
+        c = KeyM(r['h'], k.origin, k.local, k.kgm, k.AS, k.NE, k.cls, k.ktype, k.weak, k.note); c.shape = k.shape + ('copy' + ('+flags' if tm else ''),); c.okey = k.okey.replace('+copy', '') + '+copy'; s.part.count('hist_copy')
+        return s.add(c, 'copy')
+    def derive(s, k, mech, s_, e_, other=None, ktype='CKK_GENERIC_SECRET', private=True):
+        x = s.x; ck = s.ck; a = s.rd(k.h)
+        tm = [('CKA_CLASS', ck.CKO_SECRET_KEY), ('CKA_KEY_TYPE', ck[ktype]), ('CKA_TOKEN', False), ('CKA_PRIVATE', private), ('CKA_SENSITIVE', s_), ('CKA_EXTRACTABLE', e_), ('CKA_DERIVE', True)]
+        if not mech.startswith('CKM_CONCATENATE') and ktype in ('CKK_GENERIC_SECRET', 'CKK_AES'): tm.append(('CKA_VALUE_LEN', 16))
+        r = x.call('C_DeriveKey', s=s.t.s, mech=MT.params(x, ck, mech, 'ECpriv', other.h if other else None), key=k.h, tmpl=x.T(tm)); s.steps.append(('derive', mech, k.h, other.h if other else None, s_, e_, ktype, r['rvname']))
+        if r['rv'] != 0: return None
+        d = s.rd(r['h']); ds, de = d.get('CKA_SENSITIVE'), d.get('CKA_EXTRACTABLE'); bAS, bNE = a.get('CKA_ALWAYS_SENSITIVE'), a.get('CKA_NEVER_EXTRACTABLE'); weak = set()
+        if mech == 'CKM_CONCATENATE_BASE_AND_KEY': oa = s.rd(other.h); AS = bool(bAS and oa.get('CKA_ALWAYS_SENSITIVE')); NE = bool(bNE and oa.get('CKA_NEVER_EXTRACTABLE'))
+        elif mech.startswith('CKM_CONCATENATE'): AS = bool(bAS); NE = bool(bNE)
+        else:
+            # v2.40 DH / ECDH text: AS = base.AS and derived.SENSITIVE, NE = base.NE and not derived.EXTRACTABLE.  The *_ENCRYPT_DATA sections state no rule: there only the half that
+            # "tell the truth about whether it was ever non-sensitive or extractable" forces is demanded -- material descending from a key that was once exposed (base.ALWAYS_SENSITIVE
+            # false / base.NEVER_EXTRACTABLE false) cannot be "always sensitive" / "never extractable"; the other half (base true => follows the derived key's own flag) is only observed.
+            AS = bool(bAS and ds); NE = bool(bNE and (de is False))
+            if mech in ENCDATA:
+                if bAS: weak.add('CKA_ALWAYS_SENSITIVE')
+                if bNE: weak.add('CKA_NEVER_EXTRACTABLE')
+        c = KeyM(r['h'], 'derive', False, UNAVAIL, AS, NE, 'secret', mech, weak, f'{mech} base AS={bAS} NE={bNE} derived S={ds} E={de}'); c.shape = k.shape + ('derive:' + mech.replace('CKM_', ''),)
+        c.okey = 'derive:' + mech.replace('CKM_', '') + (',base=' + k.okey.split(':')[0].split('+')[0]); s.part.count('hist_derive_' + mech.replace('CKM_', ''))
+        return s.add(c, 'derive')
+    def recheck(s):
+        for q in s.pool: s.check(q, 'recheck')
+    def done(s):
+        s.part.count('histories')
+        for q in s.pool: s.x.call('C_DestroyObject', s=s.t.s, o=q.h)
+
+def directed(t, job, part):
+    """scripted flag histories for every derivation mechanism: a base key born exposed, protected LATER, then derive with protected flags, then derive again from the derived key"""
+    n = 0
+    for mech in list(ENCDATA) + ['CKM_CONCATENATE_BASE_AND_DATA', 'CKM_CONCATENATE_DATA_AND_BASE', 'CKM_CONCATENATE_BASE_AND_KEY', 'CKM_DH_PKCS_DERIVE', 'CKM_ECDH1_DERIVE']:
+        for born in ((False, True), (True, True), (False, False), (True, False)):           # flags at birth
+            for via_copy in (False, True):
+                n += 1; h = Hist(t, part, -n); s0, e0 = born
+                if mech in ENCDATA: gm = 'CKM_AES_KEY_GEN' if ENCDATA[mech] == 'CKK_AES' else 'CKM_DES3_KEY_GEN'; k = h.generate(gm, s0, e0); kt = ENCDATA[mech]
+                elif mech.startswith('CKM_CONCATENATE'): k = h.generate('CKM_GENERIC_SECRET_KEY_GEN', s0, e0); kt = 'CKK_GENERIC_SECRET'
+                else: k = h.genpair('CKM_DH_PKCS_KEY_PAIR_GEN' if mech == 'CKM_DH_PKCS_DERIVE' else 'CKM_EC_KEY_PAIR_GEN', s0, e0); kt = 'CKK_AES'
+                if k is None: h.done(); continue
+                other = h.generate('CKM_GENERIC_SECRET_KEY_GEN', True, False) if mech == 'CKM_CONCATENATE_BASE_AND_KEY' else None     # the other key was always protected: only the base's past matters
+                if via_copy: k = h.copy(k, ([('CKA_SENSITIVE', True)] if not s0 else []) + ([('CKA_EXTRACTABLE', False)] if e0 else [])) or k
+                else:
+                    if not s0: h.set(k, 'CKA_SENSITIVE', True)
+                    if e0: h.set(k, 'CKA_EXTRACTABLE', False)
+                h.recheck()
+                d = h.derive(k, mech, True, False, other, kt)                        # asks for a fully protected result
+                if d is not None:
+                    nxt = {'CKK_AES': 'CKM_AES_ECB_ENCRYPT_DATA', 'CKK_DES3': 'CKM_DES3_CBC_ENCRYPT_DATA'}.get(kt, 'CKM_CONCATENATE_DATA_AND_BASE')
+                    d2 = h.derive(d, nxt, True, False, None, 'CKK_GENERIC_SECRET'); h.copy(d2 or d, [])
+                    h.derive(d, 'CKM_CONCATENATE_BASE_AND_DATA', True, False)
+                h.derive(k, mech, False, True, other, kt); h.recheck(); part.count('directed_histories'); h.done()
 
 def histories(t, job, part):
-    ck = t.ck; x = t.x
+    ck = t.ck
+    if job.get('directed'): directed(t, job, part)
     for seed in job['seeds']:
-        rnd = random.Random(seed); pool = []; steps = []
-        def rd(h): return t.snap(h)
-        def check(k, step):
-            a = rd(k.h)
-            if 'CKA_CLASS' not in a: return
-            sens, extr = a.get('CKA_SENSITIVE'), a.get('CKA_EXTRACTABLE'); part.count('history_checks')
-            def bad(attr, exp, strong=True):
-                key = f'history|{k.okey},{attr}|reads-{a.get(attr)}-expected-{exp}'
-                wit = {'seed': seed, 'steps': steps[-10:], 'key_origin': k.origin, 'note': k.note, 'attrs': {n: repr(a.get(n)) for n in HIST + ('CKA_SENSITIVE', 'CKA_EXTRACTABLE')}}
-                if strong and k.spec: part.violation(key, f'{attr} of a key made by {" -> ".join(k.shape)} reads {a.get(attr)!r}, its history says {exp!r}', wit)
-                else: part.observe('history attribute differs from the generic rule where PKCS#11 v2.40 states none (not judged)', {'key': key})
-            if a.get('CKA_LOCAL') is not k.local: bad('CKA_LOCAL', k.local, True if k.local is False or k.origin.startswith('generate') else k.spec)
-            if k.kgm is not None and a.get('CKA_KEY_GEN_MECHANISM') != k.kgm:
-                if k.origin.startswith(('generate', 'create', 'unwrap')) or k.kgm != UNAVAIL: bad('CKA_KEY_GEN_MECHANISM', k.kgm)
-                else: part.observe('CKA_KEY_GEN_MECHANISM of a derived key is not CK_UNAVAILABLE_INFORMATION (v2.40 does not say: not judged)', {'shape': k.shape})
-            if k.cls != 'public':
-                # universal truths first: "always sensitive" while readable / "never extractable" while extractable is a lie whatever the origin
-                if a.get('CKA_ALWAYS_SENSITIVE') is True and sens is False: part.violation(f'history|{k.okey},CKA_ALWAYS_SENSITIVE|true-on-non-sensitive-key', 'CKA_ALWAYS_SENSITIVE true on a key whose CKA_SENSITIVE is false', {'seed': seed, 'steps': steps[-10:]})
-                if a.get('CKA_NEVER_EXTRACTABLE') is True and extr is True: part.violation(f'history|{k.okey},CKA_NEVER_EXTRACTABLE|true-on-extractable-key', 'CKA_NEVER_EXTRACTABLE true on a key whose CKA_EXTRACTABLE is true', {'seed': seed, 'steps': steps[-10:]})
-                if k.AS is not None and a.get('CKA_ALWAYS_SENSITIVE') is not k.AS: bad('CKA_ALWAYS_SENSITIVE', k.AS)
-                if k.NE is not None and a.get('CKA_NEVER_EXTRACTABLE') is not k.NE: bad('CKA_NEVER_EXTRACTABLE', k.NE)
-            part.case(('history',) + k.shape[:6] + (step,), nontrivial=True)
+        rnd = random.Random(seed); h = Hist(t, part, seed)
         def flags(): return rnd.choice([(False, True), (True, True), (False, False), (True, False)])
-        def origin():
-            how = rnd.choice(['generate', 'generate', 'genpair', 'create', 'create', 'unwrap'])
-            s_, e_ = flags()
-            if how == 'generate':
-                mech = rnd.choice(['CKM_AES_KEY_GEN', 'CKM_DES3_KEY_GEN', 'CKM_GENERIC_SECRET_KEY_GEN', 'CKM_DES2_KEY_GEN'])
-                tm = [('CKA_TOKEN', False), ('CKA_PRIVATE', rnd.random() < .5), ('CKA_SENSITIVE', s_), ('CKA_EXTRACTABLE', e_), ('CKA_DERIVE', True)] + ([('CKA_VALUE_LEN', 16)] if mech in ('CKM_AES_KEY_GEN', 'CKM_GENERIC_SECRET_KEY_GEN') else [])
-                rnd.shuffle(tm); r = x.call('C_GenerateKey', s=t.s, mech=x.M(mech), tmpl=x.T(tm)); steps.append(('generate', mech, s_, e_))
-                if r['rv'] != 0: part.observe('positive control refused: C_GenerateKey', {'mech': mech, 'rv': r['rvname']}); return None
-                return KeyM(r['h'], 'generate', True, ck[mech], s_, not e_, 'secret', mech)
-            if how == 'genpair':
-                mech = rnd.choice(['CKM_EC_KEY_PAIR_GEN', 'CKM_EC_EDWARDS_KEY_PAIR_GEN', 'CKM_DSA_KEY_PAIR_GEN', 'CKM_DH_PKCS_KEY_PAIR_GEN'] + (['CKM_RSA_PKCS_KEY_PAIR_GEN'] if rnd.random() < .15 else []))
-                fn, kw = MT.genkey_request(x, ck, mech); kw['priv'] = x.T([('CKA_TOKEN', False), ('CKA_PRIVATE', True), ('CKA_SENSITIVE', s_), ('CKA_EXTRACTABLE', e_), ('CKA_DERIVE', True)])
-                r = x.call(fn, s=t.s, **kw); steps.append(('genpair', mech, s_, e_))
-                if r['rv'] != 0: part.observe('positive control refused: C_GenerateKeyPair', {'mech': mech, 'rv': r['rvname']}); return None
-                pool.append(KeyM(r['hpub'], 'generate-pub', True, ck[mech], None, None, 'public', mech))
-                return KeyM(r['hpriv'], 'generate', True, ck[mech], s_, not e_, 'private', mech)
-            if how == 'create':
-                kind = rnd.choice(['AES16', 'DES3', 'GEN16', 'GEN64', 'RSApriv', 'ECpriv', 'DHpriv', 'DSApriv', 'EDpriv', 'ECpub'])
-                h = t.mk(kind, private=(False if kind.endswith('pub') else True), extra=({'CKA_SENSITIVE': s_, 'CKA_EXTRACTABLE': e_} if not kind.endswith('pub') else None)); steps.append(('create', kind, s_, e_))
-                if h is None: return None
-                return KeyM(h, 'create', False, UNAVAIL, None if kind.endswith('pub') else False, None if kind.endswith('pub') else False, K.kclass(kind), kind)
-            kind = rnd.choice(['AES16', 'GEN16', 'ECpriv', 'RSApriv']); wk = t.mk('AES32'); src = t.mk(kind, private=True)
-            w = x.call('C_WrapKey', s=t.s, mech=x.M('CKM_AES_KEY_WRAP_PAD'), wkey=wk, key=src, buf=4096); steps.append(('unwrap', kind, s_, e_))
-            if w['rv'] != 0: return None
-            ut = [('CKA_CLASS', ck.CKO_SECRET_KEY if K.kclass(kind) == 'secret' else ck.CKO_PRIVATE_KEY), ('CKA_KEY_TYPE', ck[K.ktype(kind)]), ('CKA_TOKEN', False), ('CKA_PRIVATE', True), ('CKA_SENSITIVE', s_), ('CKA_EXTRACTABLE', e_), ('CKA_DERIVE', True)]
-            r = x.call('C_UnwrapKey', s=t.s, mech=x.M('CKM_AES_KEY_WRAP_PAD'), ukey=wk, wrapped=w['out']['data'], tmpl=x.T(ut))
-            for h in (wk, src): x.call('C_DestroyObject', s=t.s, o=h)
-            if r['rv'] != 0: part.observe('positive control refused: C_UnwrapKey', {'kind': kind, 'rv': r['rvname']}); return None
-            return KeyM(r['h'], 'unwrap', False, UNAVAIL, False, False, K.kclass(kind), kind)
-        k = origin()
-        if k is None: continue
-        pool.append(k); check(k, 'origin')
+        how = rnd.choice(['generate', 'generate', 'genpair', 'create', 'create', 'unwrap']); s_, e_ = flags()
+        if how == 'generate': k = h.generate(rnd.choice(['CKM_AES_KEY_GEN', 'CKM_DES3_KEY_GEN', 'CKM_GENERIC_SECRET_KEY_GEN', 'CKM_DES2_KEY_GEN']), s_, e_, rnd.random() < .5, rnd.shuffle)
+        elif how == 'genpair': k = h.genpair(rnd.choice(['CKM_EC_KEY_PAIR_GEN', 'CKM_EC_EDWARDS_KEY_PAIR_GEN', 'CKM_DSA_KEY_PAIR_GEN', 'CKM_DH_PKCS_KEY_PAIR_GEN'] + (['CKM_RSA_PKCS_KEY_PAIR_GEN'] if rnd.random() < .15 else [])), s_, e_)
+        elif how == 'create': k = h.create(rnd.choice(['AES16', 'DES3', 'GEN16', 'GEN64', 'RSApriv', 'ECpriv', 'DHpriv', 'DSApriv', 'EDpriv', 'ECpub']), s_, e_)
+        else: k = h.unwrap(rnd.choice(['AES16', 'GEN16', 'ECpriv', 'RSApriv']), s_, e_)
+        if k is None: h.done(); continue
         for _ in range(job['steps']):
-            cand = [q for q in pool if q.cls != 'public'] or pool; k = rnd.choice(cand); a = rd(k.h); act = rnd.choice(['set-sensitive', 'set-unextractable', 'copy', 'copy', 'derive', 'derive', 'set-forbidden'])
-            if act == 'set-sensitive' or act == 'set-unextractable':
-                attr, v = ('CKA_SENSITIVE', True) if act == 'set-sensitive' else ('CKA_EXTRACTABLE', False)
-                r = x.call('C_SetAttributeValue', s=t.s, o=k.h, tmpl=x.T([(attr, v)])); steps.append((act, k.h, r['rvname']))
-                if r['rv'] == 0: k.shape += (act,); part.count('hist_' + act)
+            cand = [q for q in h.pool if q.cls != 'public'] or h.pool; k = rnd.choice(cand); a = h.rd(k.h); act = rnd.choice(['set-sensitive', 'set-unextractable', 'copy', 'copy', 'derive', 'derive', 'set-forbidden'])
+            if act == 'set-sensitive': h.set(k, 'CKA_SENSITIVE', True)
+            elif act == 'set-unextractable': h.set(k, 'CKA_EXTRACTABLE', False)
             elif act == 'set-forbidden':
                 attr, v = rnd.choice([('CKA_SENSITIVE', False), ('CKA_EXTRACTABLE', True), ('CKA_ALWAYS_SENSITIVE', True), ('CKA_NEVER_EXTRACTABLE', True), ('CKA_LOCAL', True)])
-                r = x.call('C_SetAttributeValue', s=t.s, o=k.h, tmpl=x.T([(attr, v)])); steps.append((act, attr, v, k.h, r['rvname']))
-                if r['rv'] == 0 and (attr in HIST or a.get(attr) is (not v)):
-                    if attr in HIST or (attr == 'CKA_SENSITIVE' and a.get(attr) is True) or (attr == 'CKA_EXTRACTABLE' and a.get(attr) is False):
-                        part.violation(f'C_SetAttributeValue|history,{attr}={v}|accepted', f'C_SetAttributeValue accepted {attr}={v} in a history', {'seed': seed, 'steps': steps[-10:]})
+                if h.set(k, attr, v) and (attr in HIST or (attr == 'CKA_SENSITIVE' and a.get(attr) is True) or (attr == 'CKA_EXTRACTABLE' and a.get(attr) is False)):
+                    part.violation(f'C_SetAttributeValue|history,{attr}={v}|accepted', f'C_SetAttributeValue accepted {attr}={v} in a history', h.wit())
             elif act == 'copy':
                 tm = []
                 if a.get('CKA_SENSITIVE') is False and rnd.random() < .5: tm.append(('CKA_SENSITIVE', True))
                 if a.get('CKA_EXTRACTABLE') is True and rnd.random() < .5: tm.append(('CKA_EXTRACTABLE', False))
                 if rnd.random() < .3: tm.append(('CKA_LABEL', b'c'))
-                r = x.call('C_CopyObject', s=t.s, o=k.h, tmpl=x.T(tm)); steps.append(('copy', k.h, [n for n, _ in tm], r['rvname']))
-                if r['rv'] == 0:
-                    c = KeyM(r['h'], k.origin, k.local, k.kgm, k.AS, k.NE, k.cls, k.ktype, k.spec, k.note); c.shape = k.shape + ('copy' + ('+flags' if tm else ''),); c.okey = k.okey.replace('+copy', '') + '+copy'; pool.append(c); part.count('hist_copy'); check(c, 'copy')
+                h.copy(k, tm)
             else:
                 if a.get('CKA_DERIVE') is not True: continue
-                s_, e_ = flags(); other = None
+                s_, e_ = flags(); other = None; kt = 'CKK_GENERIC_SECRET'
                 if k.cls == 'secret':
-                    kt = a.get('CKA_KEY_TYPE'); ms = ['CKM_CONCATENATE_BASE_AND_KEY', 'CKM_CONCATENATE_BASE_AND_DATA', 'CKM_CONCATENATE_DATA_AND_BASE']
-                    if kt == ck.CKK_AES: ms += ['CKM_AES_ECB_ENCRYPT_DATA', 'CKM_AES_CBC_ENCRYPT_DATA']
-                    if kt in (ck.CKK_DES2, ck.CKK_DES3): ms += ['CKM_DES3_ECB_ENCRYPT_DATA', 'CKM_DES3_CBC_ENCRYPT_DATA']
+                    t_ = a.get('CKA_KEY_TYPE'); ms = ['CKM_CONCATENATE_BASE_AND_KEY', 'CKM_CONCATENATE_BASE_AND_DATA', 'CKM_CONCATENATE_DATA_AND_BASE']
+                    if t_ == ck.CKK_AES: ms += ['CKM_AES_ECB_ENCRYPT_DATA', 'CKM_AES_CBC_ENCRYPT_DATA'] * 2
+                    if t_ in (ck.CKK_DES2, ck.CKK_DES3): ms += ['CKM_DES3_ECB_ENCRYPT_DATA', 'CKM_DES3_CBC_ENCRYPT_DATA'] * 2
                     mech = rnd.choice(ms)
-                    if mech == 'CKM_CONCATENATE_BASE_AND_KEY':
-                        oc = [q for q in pool if q.cls == 'secret']; other = rnd.choice(oc)
-                elif k.cls == 'private' and a.get('CKA_KEY_TYPE') == ck.CKK_DH: mech = 'CKM_DH_PKCS_DERIVE'
-                elif k.cls == 'private' and a.get('CKA_KEY_TYPE') == ck.CKK_EC: mech = 'CKM_ECDH1_DERIVE'
+                    if mech == 'CKM_CONCATENATE_BASE_AND_KEY': other = rnd.choice([q for q in h.pool if q.cls == 'secret'])
+                    if mech in ENCDATA and rnd.random() < .6: kt = ENCDATA[mech]          # a result that can itself be the base of another *_ENCRYPT_DATA derivation
+                elif k.cls == 'private' and a.get('CKA_KEY_TYPE') == ck.CKK_DH: mech = 'CKM_DH_PKCS_DERIVE'; kt = rnd.choice(['CKK_GENERIC_SECRET', 'CKK_AES'])
+                elif k.cls == 'private' and a.get('CKA_KEY_TYPE') == ck.CKK_EC: mech = 'CKM_ECDH1_DERIVE'; kt = rnd.choice(['CKK_GENERIC_SECRET', 'CKK_AES'])
                 else: continue
-                tm = [('CKA_CLASS', ck.CKO_SECRET_KEY), ('CKA_KEY_TYPE', ck.CKK_GENERIC_SECRET), ('CKA_TOKEN', False), ('CKA_PRIVATE', rnd.random() < .5), ('CKA_SENSITIVE', s_), ('CKA_EXTRACTABLE', e_), ('CKA_DERIVE', True)]
-                if not mech.startswith('CKM_CONCATENATE'): tm.append(('CKA_VALUE_LEN', 16))
-                r = x.call('C_DeriveKey', s=t.s, mech=MT.params(x, ck, mech, 'ECpriv', other.h if other else None), key=k.h, tmpl=x.T(tm)); steps.append(('derive', mech, k.h, other.h if other else None, s_, e_, r['rvname']))
-                if r['rv'] != 0: continue
-                d = rd(r['h']); ds, de = d.get('CKA_SENSITIVE'), d.get('CKA_EXTRACTABLE')
-                bAS, bNE = a.get('CKA_ALWAYS_SENSITIVE'), a.get('CKA_NEVER_EXTRACTABLE')
-                if mech == 'CKM_CONCATENATE_BASE_AND_KEY':
-                    oa = rd(other.h); AS = bool(bAS and oa.get('CKA_ALWAYS_SENSITIVE')); NE = bool(bNE and oa.get('CKA_NEVER_EXTRACTABLE')); spec = True
-                elif mech.startswith('CKM_CONCATENATE'): AS = bool(bAS); NE = bool(bNE); spec = True
-                else:   # v2.40 DH / ECDH text: AS = base.AS and derived.SENSITIVE, NE = base.NE and not derived.EXTRACTABLE; the ENCRYPT_DATA sections state nothing (generic rule, observation only)
-                    AS = bool(bAS and ds); NE = bool(bNE and (de is False)); spec = mech in ('CKM_DH_PKCS_DERIVE', 'CKM_ECDH1_DERIVE')
-                c = KeyM(r['h'], 'derive', False, UNAVAIL, AS, NE, 'secret', mech, spec, f'{mech} base AS={bAS} NE={bNE} derived S={ds} E={de}'); c.shape = k.shape + ('derive:' + mech.replace('CKM_', ''),); c.okey = 'derive:' + mech.replace('CKM_', '') + (',base=' + k.okey.split(':')[0].split('+')[0]); pool.append(c); part.count('hist_derive_' + mech.replace('CKM_', '')); check(c, 'derive')
-            for q in pool: check(q, 'recheck')
-        part.count('histories')
-        for q in pool: x.call('C_DestroyObject', s=t.s, o=q.h)
+                h.derive(k, mech, s_, e_, other, kt, rnd.random() < .5)
+            h.recheck()
+        h.done()
 
 def worker(job):
     from ck import CK
@@ -540,10 +636,12 @@ def run(ctx):
     for i in range(0, nh, per):
         be = backends[(i // per) % len(backends)]
         jobs.append(dict(paths=p, hdr=p['hdr'], scratch=ctx.scratch, what='hist', backend=be, name=f'{be}-hist{i}', seeds=[ctx.seed * 1000003 + i + j for j in range(per)], steps=ctx.q(7, 9)))
+    for be in backends: jobs.append(dict(paths=p, hdr=p['hdr'], scratch=ctx.scratch, what='hist', backend=be, name=f'{be}-directed', seeds=[], steps=0, directed=True))
     jobs.sort(key=lambda j: 0 if j.get('kind') in ('RSApriv', 'RSApub', 'DHPARAMS', 'DSAPARAMS') else 1)
     for part in pmap(worker, jobs, ctx.nproc): ctx.merge(part)
-    ctx.assumptions += ['the read-only table is conservative: data-object attributes, CKA_CHECK_VALUE, CKA_PUBLIC_KEY_INFO, CKA_DESTROYABLE and CKA_COPYABLE true->false are "open" (no demand); where a token may be stricter a refusal is accepted',
+    ctx.assumptions += ['raw CK_BBOOL bytes {0x00,0x01,0x02,0x80,0xFF} for attributes with a forbidden direction are judged by effect only (the attribute still reads protected and its gate still holds); rejecting or normalising a non-canonical byte is the token\'s choice',
+                        'the read-only table is conservative: data-object attributes, CKA_CHECK_VALUE, CKA_PUBLIC_KEY_INFO, CKA_DESTROYABLE and CKA_COPYABLE true->false are "open" (no demand); where a token may be stricter a refusal is accepted',
                         'a rejected multi-attribute template that changed a SESSION object is the known C09 defect (SessionObject::abortTransaction) and only observed here',
-                        'history attributes of keys derived with the *_ENCRYPT_DATA mechanisms are judged only by the universal truths (ALWAYS_SENSITIVE implies SENSITIVE, NEVER_EXTRACTABLE implies not EXTRACTABLE, LOCAL false); v2.40 states the exact rule only for DH/ECDH and the CONCATENATE mechanisms',
+                        'keys derived with the *_ENCRYPT_DATA mechanisms (v2.40 states the exact rule only for DH/ECDH and the CONCATENATE mechanisms): demanded are the universal truths (ALWAYS_SENSITIVE implies SENSITIVE, NEVER_EXTRACTABLE implies not EXTRACTABLE, LOCAL false) AND the reading of "tell the truth about whether it was ever non-sensitive or extractable" for derived material: base.ALWAYS_SENSITIVE false => derived.ALWAYS_SENSITIVE false, base.NEVER_EXTRACTABLE false => derived.NEVER_EXTRACTABLE false (the material descends from material that was once exposed); the converse half (base true => follows the derived key\'s own flag, as for DH/ECDH) is only observed',
                         'attribute-array attributes (WRAP/UNWRAP/DERIVE_TEMPLATE) are compared by length only']
 if __name__ == '__main__': main('C08', run, min_evaluations=3000, min_distinct=800)
